@@ -23,8 +23,9 @@ pub struct RefBuf<const N: usize> {
 impl<const N: usize> RefBuf<N> {
     pub fn new() -> Self { Self { b: [0; N], care: [true; N], pos: 0 } }
     pub fn put(&mut self, bytes: &[u8]) {
-        let mut i = 0;
-        while i < bytes.len() { self.b[self.pos] = bytes[i]; self.pos += 1; i += 1; }
+        // (memcpy, not a byte loop: every unwound iteration costs solver-side bookkeeping and driver memory)
+        self.b[self.pos..self.pos + bytes.len()].copy_from_slice(bytes);
+        self.pos += bytes.len();
     }
     pub fn dontcare(&mut self, k: usize) {
         let mut i = 0;
